@@ -172,9 +172,42 @@ Theorem C08_history_plain :
     nth t (h_plain (htick h t)) None = (if Nat.ltb t (length (h_plain h)) then Some (snd (plain_step (h_g h) t st)) else None).
 Proof. exact (@history_plain_proof). Qed.
 
+(* ------------------------------------------------------------------ statements the database refuses (UNIQUE column u) *)
+(* a statement refused by the UNIQUE constraint whose DuplicateEntryError the body catches is nothing at all to the outcome of
+   the body: result and table are those of the body without that step (only the step indices of later raises move on by one,
+   and a refused update has fetched its row) -- so by C08_all_or_nothing what the body did BEFORE the refused statement is
+   committed with the rest, or undone with the rest *)
+Theorem C08_refused_guarded_step :
+  forall (tb : table) (cached : list Z) (rest : list bstep) (k : nat) (created : list Z),
+    (forall a b u, clash ucol tb None u = true ->
+       body_run tb cached (BCreateU true a b u :: rest) k created = body_run tb cached rest (S k) created) /\
+    (forall id u, upd_clash ucol tb id u = true ->
+       body_run tb cached (BWriteU true id u :: rest) k created = body_run tb cached rest (S k) created) /\
+    (forall id u, get_ok tb cached id = true -> upd_clash ucol tb id u = true ->
+       body_run tb cached (BUpdateU true id u :: rest) k created = body_run tb (add_id id cached) rest (S k) created).
+Proof. exact (@refused_guarded_step_proof). Qed.
+
+(* ... and when the body does not catch it, it is the exception of the call, raised by that step, nothing written *)
+Theorem C08_refused_unguarded_step :
+  forall (tb : table) (cached : list Z) (rest : list bstep) (k : nat) (created : list Z),
+    (forall a b u, clash ucol tb None u = true ->
+       body_run tb cached (BCreateU false a b u :: rest) k created = (Raised XDuplicate k, tb)) /\
+    (forall id u, upd_clash ucol tb id u = true ->
+       body_run tb cached (BWriteU false id u :: rest) k created = (Raised XDuplicate k, tb)).
+Proof. exact (@refused_unguarded_step_proof). Qed.
+
+(* inside the call: the refused statement has taken the write lock (it was sent), the transaction goes on with the view it had *)
+Theorem C08_refused_step_keeps_view :
+  forall (g : gst) (t : nat) old is_thr view cached rest k created a b u,
+    ts_phase (thread g t) = PRun old is_thr view cached (BCreateU true a b u :: rest) k created ->
+    locked_by_other g t = false -> clash ucol (tview g view) None u = true ->
+    tick g t = set_thread (with_glock g (Some t)) t (ts_slot (thread g t))
+                 (PRun old is_thr (Some (tview g view)) cached rest (S k) created).
+Proof. exact (@refused_step_keeps_view_proof). Qed.
+
 (* ------------------------------------------------------------------ non-vacuity *)
 Definition v (z : Z) : val := Some z.
-Definition tab0 : table := {| t_rows := [(1, [v 1; v 1]); (2, [v 2; v 2])]; t_next := 3 |}.
+Definition tab0 : table := {| t_rows := [(1, [v 1; v 1; v 10]); (2, [v 2; v 2; None])]; t_next := 3 |}.
 Definition body1 : list bstep := [BCreate (v 3) (v 3); BUpdate 1 0 (v 9); BDelete 2; BUpdate 3 1 None].
 Definition g_thr (bodies : list (list bstep)) : gst :=
   {| g_committed := tab0; g_lock := None; g_proc := None;
@@ -221,15 +254,27 @@ Example C08_fail_write_fail :
               h_plain := [None] |} in
   let h' := hrun h (repeat 0%nat 9) in
   t_rows (g_committed (h_g (hrun h (repeat 0%nat 3)))) = t_rows tab0 /\
-  t_rows (g_committed (h_g (hrun h (repeat 0%nat 4)))) = t_rows tab0 ++ [(3, [v 8; v 8])] /\
-  t_rows (g_committed (h_g h')) = t_rows tab0 ++ [(3, [v 8; v 8])] /\
+  t_rows (g_committed (h_g (hrun h (repeat 0%nat 4)))) = t_rows tab0 ++ [(3, [v 8; v 8; None])] /\
+  t_rows (g_committed (h_g h')) = t_rows tab0 ++ [(3, [v 8; v 8; None])] /\
   ts_phase (thread (h_g h') 0) = PDone (Raised (XUser 1) 1) (Some finished) /\
   h_plain h' = [Some (Return [3])] /\ resolve (h_g h') 0 = Some (CDb 0).
 Proof. vm_compute. repeat split. Qed.
 
+(* the body writes, runs into the UNIQUE column (row 1 carries u = 10), catches that, writes again and returns: everything
+   before and after the refused statement is committed; the same body without the guard raises and leaves nothing *)
+Example C08_refused_in_the_middle :
+  let body gd := [BWrite 2 0 (v 7); BCreateU gd (v 5) (v 5) (v 10); BCreateU gd (v 6) (v 6) (v 11); BWriteU gd 2 (v 10); BWrite 1 1 (v 8)] in
+  let g' gd := run_sched (g_thr [body gd]) (repeat 0%nat (length (body gd) + 2)) in
+  ts_phase (thread (g' true) 0) = PDone (Return [3]) (Some finished) /\
+  t_rows (g_committed (g' true)) = [(1, [v 1; v 8; v 10]); (2, [v 7; v 2; None]); (3, [v 6; v 6; v 11])] /\
+  ts_phase (thread (g' false) 0) = PDone (Raised XDuplicate 1) (Some finished) /\
+  g_committed (g' false) = tab0 /\
+  g_lock (run_sched (g_thr [[BCreateU true (v 5) (v 5) (v 10)]]) [0; 0]%nat) = Some 0%nat.
+Proof. vm_compute. repeat split. Qed.
+
 Example C08_body1_alone :
   body_result tab0 body1 = Return [3] /\
-  t_rows (body_table tab0 body1) = [(1, [v 9; v 1]); (3, [v 3; None])] /\
+  t_rows (body_table tab0 body1) = [(1, [v 9; v 1; v 10]); (3, [v 3; None; None])] /\
   caller_bound (g_thr [body1]) 0 0 true /\ caller_bound (g_proc1 body1) 0 0 false.
 Proof. vm_compute. repeat split. Qed.
 (* raise after every prefix: the result is the raise, the table untouched, the hub restored *)
@@ -254,7 +299,7 @@ Example C08_two_threads :
   start_threads g0 = true /\
   ts_phase (thread g 0) = PDone (Return [3]) (Some finished) /\
   ts_phase (thread g 1) = PDone (Raised XLocked 0) (Some finished) /\
-  t_rows (g_committed g) = [(1, [v 5; v 1]); (2, [v 2; v 2]); (3, [v 3; v 3])] /\
+  t_rows (g_committed g) = [(1, [v 5; v 1; v 10]); (2, [v 2; v 2; None]); (3, [v 3; v 3; None])] /\
   resolve g 0 = Some (CDb 0) /\ resolve g 1 = Some (CDb 1) /\
   g_lock (run_sched g0 [0; 1; 0]%nat) = Some 0%nat /\ resolve (run_sched g0 [0; 1; 0]%nat) 1 = Some (CTx 1).
 Proof. vm_compute. repeat split. Qed.
@@ -275,3 +320,6 @@ Print Assumptions C08_plain_write.
 Print Assumptions C08_history_call.
 Print Assumptions C08_history_run.
 Print Assumptions C08_history_plain.
+Print Assumptions C08_refused_guarded_step.
+Print Assumptions C08_refused_unguarded_step.
+Print Assumptions C08_refused_step_keeps_view.
